@@ -162,6 +162,26 @@ class Resolver:
             return out
         return set()
 
+    def iter_elem_types(self, it: ast.AST, fn: Optional[FuncInfo], events, depth=0) -> Set[str]:
+        """Types of the elements obtained by iterating the expression `it` (containers, __iter__, generator functions)."""
+        out = self.elem_type(self.typeof(it, fn, events, depth + 1), depth + 1)
+        if not out and isinstance(it, ast.Call) and fn is not None and depth < 10:
+            res = self._resolve(it, fn, events)
+            for t in res.targets:
+                key = ("gen", t.key)
+                if key in self._busy:
+                    continue
+                self._busy.add(key)
+                try:
+                    for n in _own_nodes(t.node):
+                        if isinstance(n, ast.Yield) and n.value is not None:
+                            out |= self.typeof(n.value, t, (), depth + 1)
+                        elif isinstance(n, ast.YieldFrom):
+                            out |= self.iter_elem_types(n.value, t, (), depth + 1)
+                finally:
+                    self._busy.discard(key)
+        return out
+
     def elem_type(self, tags: Set[str], depth=0) -> Set[str]:
         """Type of the elements obtained by iterating / indexing a value of the given types."""
         out: Set[str] = set()
@@ -251,10 +271,10 @@ class Resolver:
                             out |= self.annot_types(n.annotation, f.module)
                         elif isinstance(n, (ast.For, ast.AsyncFor)) and isinstance(n.target, ast.Name) and n.target.id == name:
                             found = True
-                            out |= self.elem_type(self.typeof(n.iter, f, events, depth + 1), depth + 1)
+                            out |= self.iter_elem_types(n.iter, f, events, depth + 1)
                         elif isinstance(n, ast.comprehension) and isinstance(n.target, ast.Name) and n.target.id == name:
                             found = True
-                            out |= self.elem_type(self.typeof(n.iter, f, events, depth + 1), depth + 1)
+                            out |= self.iter_elem_types(n.iter, f, events, depth + 1)
                     if found:
                         return out
                 finally:
